@@ -37,7 +37,10 @@ CarriesFailure(resp, ret) ==
 C10_ClientMaps(resp, ret) ==
   IF Success(resp.status) THEN TRUE                                       \* not an error: C01's business
   ELSE IF IsVE(resp) THEN ret.kind = "validationError" /\ ret.viol = resp.ve.viol
-  ELSE IF resp.status = 400 /\ resp.ve.ok                                 \* a validation error without violations
+  \* a 400 that carries no violations: a validation error without violations (the statement's "a 400
+  \* becomes a validation error") or an error value with the status; but a body that holds something
+  \* else must not be swallowed
+  ELSE IF resp.status = 400 /\ (resp.ve.ok \/ (resp.raw = "" /\ ~resp.err.ok))
        THEN (ret.kind = "validationError" /\ ret.viol = <<>>) \/ CarriesFailure(resp, ret)
   ELSE CarriesFailure(resp, ret)
 =============================================================================
